@@ -1402,7 +1402,7 @@ def _krome_window_stores(ctx, pkg, fn):
         _, f = pkg.resolve("KROMEReaction", name)
         return _parser(pkg, "KROMEReaction", name) if f is not None and name.startswith("_") and not name.startswith("__") and name not in KEEP else None
     # (small pure module-level helpers called by their bare name are read as the expressions they return)
-    fl = Flow(_parser(pkg, "KROMEReaction"), KROME, resolver=res, func_resolver=lambda name: pkg.functions.get((KROME, name)), raise_arms=True)
+    fl = Flow(_parser(pkg, "KROMEReaction"), KROME, resolver=res, func_resolver=lambda name: pkg.module_function(KROME, name), raise_arms=True)
     want_ops = {"<", ">", ".LE.", ".GE.", ".LT.", ".GT."}
     want_none = {"N", "NONE", "N/A", "NO", ""}
     # (a float() inside try/except may leave the no-bound words to the handler; helpers still called through self / setattr with a
